@@ -19,7 +19,7 @@ from .c04 import DIRNAMES  # noqa: E402
 
 ID = 'C10'
 LEVEL = 'exploration'
-FIELDS = ['group', 'quality', 'n_x', 'KSLabel', 'i', 'inf']
+FIELDS = ['group', 'quality', 'n_x', 'KSLabel', 'i', 'inf', 'ks.label', 'ks.amp']
 RULE = (
     "Hypothesis RuleBasedStateMachine; the case is (dataset spec, operation trace). Datasets: KS "
     "or ALF names, dense or sparse templates, raw data present (flat/npy/cbin, chunk length small "
@@ -62,7 +62,7 @@ _value = st.one_of(st.integers(-5, 50), st.floats(-100, 100, allow_nan=False),
 _mapping = st.lists(st.tuples(st.integers(0, 30), _value), max_size=5,
                     unique_by=lambda kv: kv[0]).map(lambda kv: [list(x) for x in kv])
 FOREIGN_KINDS = ['tsv', 'csv', 'empty', 'header', 'ragged', 'nocid', 'strids', 'binary', 'info',
-                 'fuzz', 'fuzz', 'csvdup', 'bigquote', 'bigfield']
+                 'fuzz', 'fuzz', 'csvdup', 'csvstem', 'bigquote', 'bigfield']
 
 
 def _val(v):
@@ -200,6 +200,23 @@ class Interp(object):
             p.write_text('\n'.join(lines) + '\n')
             self.stats['info_file'] = True
             self.csvdup_fields = getattr(self, 'csvdup_fields', set()) | set(fields)
+            return
+        if k == 'csvstem':
+            # a legacy CSV with the same stem as a saved field's TSV: its column of that name is
+            # superseded by the TSV, its other column is ordinary foreign metadata
+            field = (sorted(self.meta) or ['group'])[idx % max(1, len(self.meta))]
+            name = 'cluster_%s.csv' % field
+            extra = 'stem%d_x' % idx
+            for other, fields in list(self.foreign.items()):
+                if extra in fields and other != name:
+                    return      # that foreign column already lives in another file
+            cids = sorted(set([r[0] for r in rows] + [0]))
+            lines = [','.join(['cluster_id', field, extra])] + \
+                [','.join([str(c), 'STALE', str(c + 7)]) for c in cids]
+            (d / name).write_text('\n'.join(lines) + '\n')
+            self.foreign[name] = {extra: {c: c + 7 for c in cids}}
+            self.csvdup_fields = getattr(self, 'csvdup_fields', set()) | {field}
+            self.stats['info_file'] = True
             return
         if k == 'info':
             # must be ignored: redefines a saved field with different values
